@@ -49,6 +49,18 @@ pub unsafe fn dealloc_stub(ptr: *mut u8, layout: Layout) {
     __rust_dealloc(ptr, layout.size(), layout.align())
 }
 
+/// `format!` builds a `String`: treated as one allocation (the formatting machinery itself is not
+/// explored - it makes the harnesses undecidable - and an empty literal is the only exemption).
+pub fn fmt_format_stub(args: core::fmt::Arguments<'_>) -> String {
+    if args.as_str() != Some("") {
+        unsafe {
+            assert!(!STEADY, "heap allocation in steady state (String built by format!)");
+            ALLOCS += 1;
+        }
+    }
+    String::new()
+}
+
 pub fn const_quarter(_x: f64) -> f64 {
     0.25
 }
@@ -70,6 +82,7 @@ macro_rules! noalloc_harness {
         #[kani::stub(alloc::alloc::dealloc, crate::c07_noalloc::dealloc_stub)]
         #[kani::stub(alloc::alloc::dealloc_nonnull, crate::c07_noalloc::dealloc_nonnull_stub)]
         #[kani::stub(alloc::alloc::realloc_nonnull, crate::c07_noalloc::realloc_nonnull_stub)]
+        #[kani::stub(alloc::fmt::format, crate::c07_noalloc::fmt_format_stub)]
         pub fn $name() $body
     };
 }
@@ -237,6 +250,18 @@ pub mod api {
             acc += v as i32;
         }
         f_arr.set_first(i);
+        // Index / IndexMut (trait impls, not inherent methods) on live elements
+        if b_box.len() > 0 {
+            let j = i % b_box.len();
+            acc += b_box[j] as i32;
+            b_box[j] = 7;
+        }
+        if b_arr.len() > 0 {
+            let j = i % b_arr.len();
+            b_arr[j] = b_arr[j].wrapping_add(1);
+        }
+        acc += f_arr[i] as i32;
+        f_arr[i] = 9;
         // Extend with more items than the buffer holds, with fewer, and with none
         let more: [i16; 5] = kani::any();
         f_arr.extend(more.iter().cloned());
